@@ -305,11 +305,218 @@ def p_part_sub(payload, chunk, idx, pos):
     return None
 
 
+# ---------------------------------------------------------------- histories: the same objects / functions used repeatedly
+# One BCURMulti and one BCURSingle object per payload stay alive for a whole session and are asked to encode with
+# different chunk sizes / flags in arbitrary order; BCURMulti.parse / BCURSingle.parse and the module-level codecs
+# are called on the parts of several nearly equal payloads one after the other. Every answer is compared with the
+# part strings built here from the reference bc32/CBOR codecs, so anything remembered from an earlier call
+# (chunks of the first encode, the checksum or y of the previous parse, a cache keyed by length or prefix) shows.
+
+
+def ref_chk(payload):
+    return ref_bc32(hashlib.sha256(ref_cbor(payload)).digest())
+
+
+def ref_parts_y(payload, y):
+    enc = ref_bc32(ref_cbor(payload))
+    cl = -(-len(enc) // y)
+    chk = ref_chk(payload)
+    return [f"ur:bytes/{i + 1}of{y}/{chk}/{enc[i * cl:(i + 1) * cl]}" for i in range(y)]
+
+
+def ref_parts(payload, chunk, animate=True):
+    enc = ref_bc32(ref_cbor(payload))
+    return ref_parts_y(payload, -(-len(enc) // chunk) if animate else 1)
+
+
+def _tryE(f, *a, **kw):
+    try:
+        return f(*a, **kw)
+    except Exception:
+        return ERR
+
+
+def _flip(s, pos, k):
+    """one bc32 character of the last field replaced by another one"""
+    start = s.rindex("/") + 1
+    if start >= len(s):
+        return s + "q"
+    p = start + pos % (len(s) - start)
+    others = [c for c in B32 if c != s[p].lower()]
+    return s[:p] + others[k % len(others)] + s[p + 1:]
+
+
+def _bcur_step(op, pool, st):
+    k = op[0]
+    if k == b"menc":                          # the long-lived BCURMulti object of payload i
+        _, i, chunk, animate = op
+        obj = st.setdefault(("m", i), bcur.BCURMulti(text_b64=b64(pool[i])))
+        return _tryE(obj.encode, max_size_per_chunk=chunk, animate=bool(animate)), ref_parts(pool[i], chunk, animate)
+    if k == b"mdef":                          # default arguments
+        obj = st.setdefault(("m", op[1]), bcur.BCURMulti(text_b64=b64(pool[op[1]])))
+        return _tryE(obj.encode), ref_parts(pool[op[1]], 300)
+    if k == b"senc":
+        _, i, uc = op
+        obj = st.setdefault(("s", i), bcur.BCURSingle(text_b64=b64(pool[i])))
+        enc = ref_bc32(ref_cbor(pool[i]))
+        want = f"ur:bytes/{ref_chk(pool[i])}/{enc}" if uc else f"ur:bytes/{enc}"
+        return _tryE(obj.encode, use_checksum=bool(uc)), want
+    if k in (b"mparse", b"mreparse"):
+        # sel: [payload, y, index] per string; accepted exactly for the complete ordered set of one (payload, y)
+        _, sel, upper, pos, sub = op
+        strings = [ref_parts_y(pool[i], y)[j] for (i, y, j) in sel]
+        if upper:
+            strings = [x.upper() for x in strings]
+        i0, y0 = sel[0][0], sel[0][1]
+        ok = [list(x) for x in sel] == [[i0, y0, j] for j in range(y0)]
+        if sub:                               # one substituted payload character in one of the strings
+            n = pos % len(strings)
+            strings[n] = _flip(strings[n], pos, sub)
+            ok = False
+        r = _tryE(bcur.BCURMulti.parse, strings if not (upper and pos % 2) else tuple(strings))
+        if r is ERR or not ok:
+            return (r if r is ERR else [b"accepted", a2b_base64(r.text_b64)]), (pool[i0] if ok else ERR)
+        if k == b"mparse":
+            return [a2b_base64(r.text_b64), r.checksum, r.encoded], \
+                [pool[i0], ref_chk(pool[i0]), ref_bc32(ref_cbor(pool[i0]))]
+        chunk2 = 1 + pos % 400                # the parsed object is used again
+        return [r.encode(max_size_per_chunk=chunk2), r.encode(animate=False), r.encode(max_size_per_chunk=chunk2)], \
+            [ref_parts(pool[i0], chunk2), ref_parts(pool[i0], 1, False), ref_parts(pool[i0], chunk2)]
+    if k == b"sparse":
+        _, i, form, upper, pos, sub = op
+        enc = ref_bc32(ref_cbor(pool[i]))
+        s = {2: f"ur:bytes/{enc}", 3: f"ur:bytes/{ref_chk(pool[i])}/{enc}", 4: f"ur:bytes/1of1/{ref_chk(pool[i])}/{enc}"}[form]
+        if upper:
+            s = s.upper()
+        if sub:
+            s = _flip(s, pos, sub)
+        r = _tryE(bcur.BCURSingle.parse, s)
+        if r is ERR or sub:
+            return (r if r is ERR else [b"accepted", a2b_base64(r.text_b64)]), (ERR if sub else pool[i])
+        return [a2b_base64(r.text_b64), r.encode(), r.encode(use_checksum=False), r.encode(use_checksum=True)], \
+            [pool[i], f"ur:bytes/{ref_chk(pool[i])}/{enc}", f"ur:bytes/{enc}", f"ur:bytes/{ref_chk(pool[i])}/{enc}"]
+    # ---- module-level codecs
+    d = pool[op[1]]
+    if k == b"benc":
+        return _tryE(lambda: list(bcur.bcur_encode(d))), [ref_bc32(ref_cbor(d)), ref_chk(d)]
+    if k == b"bdec":                          # checksum argument: 0 none, 1 right, 2 of another payload
+        which, other = op[2], pool[op[3]]
+        c = None if which == 0 else ref_chk(d) if which == 1 else ref_chk(other)
+        want = d if which < 2 or ref_chk(other) == ref_chk(d) else ERR
+        return _tryE(bcur.bcur_decode, ref_bc32(ref_cbor(d)), c), want
+    if k == b"b32e":
+        return _tryE(bech32.bc32encode, d), ref_bc32(d)
+    if k == b"b32d":
+        s = ref_bc32(d)
+        if op[2]:
+            s = _flip("/" + s, op[3], op[2])[1:]
+        r = _tryE(bech32.bc32decode, s.upper() if op[3] % 3 == 0 else s)
+        return ([] if r is None else r), ([] if op[2] else d)
+    if k == b"cbe":
+        return _tryE(bech32.cbor_encode, d), ref_cbor(d)
+    if k == b"cbd":
+        return _tryE(bech32.cbor_decode, ref_cbor(d)), d
+    if k == b"cvt":
+        five = ref_conv(d, 8, 5, True)
+        return _tryE(lambda: [bech32.convertbits(d, 8, 5), bech32.convertbits(five, 5, 8, False)]), [five, list(d)]
+    raise ValueError(k)
+
+
+def p_bcur_session(pool, ops):
+    from vp.sexp import canon
+    st = {}
+    for n, op in enumerate(ops):
+        got, want = _bcur_step(op, pool, st)
+        if got is ERR and want is ERR:
+            continue
+        if got is ERR or want is ERR or canon(got) != canon(want):
+            def sh(v):
+                return "an exception" if v is ERR else repr(v)[:160]
+            return (f"step {n} {op!r:.120}: got {sh(got)}, expected {sh(want)} — after {n} earlier call(s) on the same "
+                    f"objects / module in this session")
+    return None
+
+
 PROPS = {"cbor_rt": p_cbor_rt, "convertbits_rt": p_convertbits_rt, "bc32_rt": p_bc32_rt, "bc32_sub": p_bc32_sub,
          "multi_rt": p_multi_rt, "multi_select": p_multi_select, "multi_tamper": p_multi_tamper,
-         "part_sub": p_part_sub}
+         "part_sub": p_part_sub, "bcur_session": p_bcur_session}
 
 # ---------------------------------------------------------------- generators
+
+
+def bcur_session(ctx):
+    r = ctx.rng
+    n = r.choice([0, 1, 22, 23, 24, 25, 100, 254, 255, 256, 300, r.randrange(0, 600), r.randrange(0, 600)])
+    p0 = ctx.rbytes(n)
+    pool = []
+    for p in (p0, p0 + b"\x00", p0[:-1], p0[:-1] + bytes([p0[-1] ^ 1]) if p0 else b"\x01", ctx.rbytes(n), p0 + p0[:3]):
+        if p not in pool:
+            pool.append(p)
+    L = [len(ref_cbor(p)) * 8 // 5 + (1 if len(ref_cbor(p)) * 8 % 5 else 0) + 6 for p in pool]
+    ops = []
+
+    def rchunk(i):
+        return max(1, r.choice([1, 2, 3, 7, 50, 299, 300, 301, L[i] - 1, L[i], L[i] + 1, L[i] // 2, L[i] // 2 + 1,
+                                L[i] // 3 + 1, r.randrange(1, 2001), r.randrange(1, L[i] + 2)]))
+    for _ in range(r.randrange(25, 50)):
+        i = r.randrange(len(pool))
+        x = r.random()
+        if x < 0.3:
+            c = rchunk(i)
+            if L[i] // c > 400:
+                c = max(c, L[i] // 40)
+            ops.append([b"menc", i, c, int(r.random() < 0.85)])
+            if r.random() < 0.4:
+                ops.append([b"menc", i, r.choice([c, c + 1, max(1, c - 1), rchunk(i)]), 1])
+        elif x < 0.35:
+            ops.append([b"mdef", i])
+        elif x < 0.45:
+            ops.append([b"senc", i, r.randrange(2)])
+            ops.append([b"senc", i, r.randrange(2)])
+        elif x < 0.75:
+            y = min(L[i], r.choice([1, 1, 2, 2, 3, 4, 5, r.randrange(1, 9)]))
+            sel = [[i, y, j] for j in range(y)]
+            v = r.random()
+            others = [k for k in range(len(pool)) if k != i and L[k] >= y]
+            if v < 0.45:
+                pass
+            elif v < 0.55 and y > 1:
+                sel.pop(r.randrange(y))
+            elif v < 0.65 and y > 1:
+                a, b = r.sample(range(y), 2)
+                sel[a], sel[b] = sel[b], sel[a]
+            elif v < 0.72:
+                sel.insert(r.randrange(y + 1), list(r.choice(sel)))
+            elif v < 0.9 and others:
+                sel[r.randrange(y)][0] = r.choice(others)             # a part of another (nearly equal) payload
+            elif L[i] > y:
+                j = r.randrange(y)
+                sel[j] = [i, y + 1, j]                                # a part of another chunking of the same payload
+            sub = r.randrange(1, 31) if r.random() < 0.15 else 0
+            ops.append([r.choice([b"mparse", b"mparse", b"mreparse"]), sel, int(r.random() < 0.2), r.randrange(1000), sub])
+        elif x < 0.85:
+            ops.append([b"sparse", i, r.choice([2, 3, 4]), int(r.random() < 0.2), r.randrange(1000),
+                        r.randrange(1, 31) if r.random() < 0.3 else 0])
+        else:
+            k = r.choice([b"benc", b"bdec", b"b32e", b"b32d", b"cbe", b"cbd", b"cvt"])
+            if k == b"bdec":
+                ops.append([k, i, r.randrange(3), r.randrange(len(pool))])
+            elif k == b"b32d":
+                ops.append([k, i, r.choice([0, 0, r.randrange(1, 31)]), r.randrange(1000)])
+            else:
+                ops.append([k, i])
+    # close: every long-lived object once more with fresh arguments
+    for i in range(len(pool)):
+        ops.append([b"menc", i, max(1, L[i] // 2 + 1), 1])
+        ops.append([b"senc", i, 1])
+    return [pool, ops]
+
+
+def histories(ctx):
+    for _ in range(ctx.n(40, 600)):
+        ctx.label("history/bcur-objects-and-codecs")
+        yield ("prop", "bcur_session", bcur_session(ctx))
+
 
 
 def generate(ctx):
@@ -485,3 +692,5 @@ def generate(ctx):
             for pos in range(len(parts[idx])):
                 ctx.label("part-substitution/header" if pos < parts[idx].rfind("/") else "part-substitution/payload")
                 yield ("prop", "part_sub", [payload, chunk, idx, pos])
+    # ---------------- histories: long-lived BCUR objects, parse / codecs called repeatedly on nearly equal payloads
+    yield from histories(ctx)
